@@ -266,7 +266,7 @@ where
     }
 
     fn get_char_list_len(&self, addr: Self::Size) -> Result<Self::Size, Self::Error> {
-        Ok(self.get(addr)?.as_char_list()?.len())
+        Ok(self.get(addr)?.as_char_list()?.chars().count())
     }
 
     fn get_char_list_item(&self, addr: Self::Size, item_index: Self::Number) -> Result<Option<Self::Char>, Self::Error> {
